@@ -10,7 +10,7 @@ WT=$(mktemp -d /tmp/seedwt.XXXXXX); rmdir "$WT"
 git -C /repo worktree add -q --detach "$WT" HEAD || exit 2
 trap 'git -C /repo worktree remove --force "$WT" >/dev/null 2>&1; rm -rf "$WT"' EXIT
 DEMO="$SRC/demo_test.go"
-DIR=$(head -1 "$DEMO" | sed -n 's,^// dir: *,,p'); DIR=${DIR:-.}
+DIR=$(head -1 "$DEMO" | sed -n 's,^// dir: *,,p' | awk '{print $1}'); DIR=${DIR:-.}
 cd "$WT"
 cp "$DEMO" "$DIR/zz_seed_demo_test.go"
 CLEAN=$(go test -vet=off -count=1 -run 'Seed|Demo|Test' "./$DIR" 2>&1 | tail -3); CLEAN_RC=$?
